@@ -164,11 +164,14 @@ def run(ctx):
         "distinct_nontrivial": summary.get("distinct_input_output_pairs_changed", 0) + cs.get("cw_output_differs", 0)
         + cs.get("lb_outputs_over_3_lines", 0),
         "rule": "oracle evaluation = one (error-free input, FormatterConfig) pair checked for parse/idempotence/"
-                "tokens/comments on the real formatter; non-trivial = the formatter changed the text (distinct "
+                "tokens/comments on the real formatter (inputs: corpus, layout mutants, generated programs, regression "
+                "inputs, and the systematic adjacency inputs of harness/h11/src/adjacency.rs - see adjacency_inputs for "
+                "the measured number that parse and the token-kind-pair coverage); non-trivial = the formatter changed the text (distinct "
                 "(input hash, output hash) pairs, measured). Coq cases: comment cases whose output differs from the "
                 "input + line-breaker trees whose output has more than 3 lines (measured by the harness).",
         "input_distribution": summary,
         "corpus_files": n_files, "corpus_snippets": n_snips,
+        "adjacency_inputs": summary.get("adjacency", {}),
         "traces_validated_against_impl": n_cases,
         "correspondence_disagreements": len(corr_bad),
         "oracle_failures": len(oracle_bad),
